@@ -163,12 +163,25 @@ def main():  # noqa
     os.makedirs(os.path.join(VERIF, 'evidence'), exist_ok=True)
 
     phases = phases_for(pid, tier)
-    binaries = {}
+    binaries, libdirs = {}, {}
     for ph in phases:
         if ph['variant'] not in binaries:
-            binaries[ph['variant']] = build(ph['variant'], engine)[0]
+            binaries[ph['variant']], libdirs[ph['variant']] = build(ph['variant'], engine)
     build_s = time.time() - t0
 
+    # synchronisation whitelist: anything thread-related the library objects still reference after redirection is unmodelled
+    harmless = {'pthread_mutex_init', 'pthread_mutex_destroy', 'pthread_attr_init', 'pthread_attr_destroy', 'pthread_attr_setdetachstate', 'pthread_attr_setstacksize', 'pthread_self', 'pthread_equal', 'pthread_mutexattr_init', 'pthread_mutexattr_destroy', 'pthread_mutexattr_settype'}
+    unmodelled = set()
+    for v in set(ph['variant'] for ph in phases):
+        try:
+            for sym in open(os.path.join(libdirs[v], v, 'undefined.txt')).read().split():
+                if re.match(r'^(pthread_|sem_|omp_|GOMP_|mtx_|cnd_|thrd_|__atomic_|__sync_)', sym) and sym not in harmless:
+                    unmodelled.add(sym)
+        except OSError:
+            pass
+    if unmodelled:
+        os.environ['SIM_RACES_ADVISORY'] = '1'
+        print('NOTE: the library now uses synchronisation the simulator does not model (%s): race reports are advisory, result divergence decides' % ', '.join(sorted(unmodelled)))
     agg = dict(runs=0, steps_total=0, steps_max=0, switches_total=0, threads_total=0, counters={}, strategies={}, violation_classes={}, samples=[], nondet=0, infra=0, variants={}, phases=[])
     distinct = set()
     nontrivial_runs = 0
@@ -366,6 +379,7 @@ def main():  # noqa
         'strategies': agg['strategies'], 'variants': agg['variants'], 'phases': agg['phases'],
         'violation_classes_seen': agg['violation_classes'],
         'known_findings_confirmed': sorted(known_hits.keys()),
+        'unmodelled_synchronisation': sorted(unmodelled),
         'real_vs_stub': REAL_VS_STUB,
         'build_s': round(build_s, 2),
         'repo': REPO,
